@@ -61,6 +61,9 @@ func parseOp(c px.Context, text string) core.Result {
 			tags = append(tags, "resolve:"+r.Kind)
 			switch r.Kind {
 			case "value":
+				if _, ok := r.Val.(px.Type); !ok {
+					return fail(out, "resolve-nil", text, "Context.ParseType returned no type and raised no error", tags)
+				}
 			case "reported", "parse-error":
 				tags = append(tags, "resolve-code:"+r.Code)
 			case "fault":
